@@ -125,7 +125,18 @@ func CheckThesaurus(r *Report, tag string, seg segment.Segment, m *model.Seg, o 
 				}
 				it := l.Iterator(preI)
 				seen := map[model.SynHit]int{}
+				steps := 0
 				for {
+					if steps == 1 && ei%2 == 1 {
+						// in the middle of this iteration: a lookup that misses must be empty
+						// and must not disturb it (shared "empty" sentinels stay empty)
+						if ml, err := th.SynonymsList([]byte("\xfe\xfemiss"), nil, nil); err != nil || ml == nil {
+							r.Fail("thes-list-err", "%s: lookup of an unknown term during an iteration: %v", where, err)
+						} else if ms, err := ml.Iterator(nil).Next(); err != nil || ms != nil {
+							r.Fail("thes-extra", "%s: unknown term yields a synonym during an iteration of %q (%v)", where, term, err)
+						}
+					}
+					steps++
 					s, err := it.Next()
 					if err != nil {
 						r.Fail("thes-next-err", "%s: term %q: %v", where, term, err)
